@@ -133,6 +133,9 @@ func OpenDbStor(store *stor.Stor, mode stor.Mode, check bool) (db *Database, err
 
 // version checks the version of the database
 func version(store *stor.Stor) {
+	if store.Size() == 0 {
+		core.Fatal("not a valid database file")
+	}
 	buf := store.Data(0)
 	if !bufHasPrefix(buf, magic) {
 		if bufHasPrefix(buf, magicBase) {
